@@ -1019,6 +1019,27 @@ func (mp *mapProto) casProtocol() {
 						s.form = "CAS(nil -> expunged) [needs mu: guarded-by]"
 					case old.IsNil():
 						s.form = "CAS(nil -> value)"
+						// the value must be there: the address of a cell, a pointer the caller handed in, or something the
+						// path has found non-nil - a CAS from nil to nil succeeds and stores nothing
+						v := nw
+						for v != nil && (v.Op == "conv" || v.Op == "call" && strings.HasSuffix(v.Sym, "unsafe.Pointer")) && len(v.Args) == 1 {
+							v = v.Args[0]
+						}
+						good := v != nil && (v.Op == "alloc" || v.Op == "param")
+						if !good && v != nil {
+							for _, cd := range p.Conds {
+								if cd.NEv > i {
+									continue
+								}
+								r := cd.Rel()
+								if r.B != nil && r.Op == "!=" && (r.A.Key() == v.Key() && r.B.IsNil() || r.B.Key() == v.Key() && r.A.IsNil()) {
+									good = true
+								}
+							}
+						}
+						if !good {
+							fail("CAS(nil -> x) with an x that is not known to be non-nil on this path: the swap succeeds and 'stores' nothing (" + nw.String() + ")")
+						}
 					case mp.isExpunged(old) && nw.IsNil():
 						s.form = "CAS(expunged -> nil) [needs mu: guarded-by]"
 					case mp.isExpunged(old):
@@ -1780,6 +1801,33 @@ func (mp *mapProto) rangePromotes() {
 				}
 			}
 		}
+		// a path that returns without having iterated at all has found the snapshot empty
+		if p.End == EndReturn {
+			iter := false
+			for i := range p.Events {
+				if p.Events[i].Kind == "range" {
+					iter = true
+				}
+			}
+			if !iter {
+				empty := false
+				for _, cd := range p.Conds {
+					if pl, kind, isInt := cd.Rel().IntNorm(); isInt && (kind == "=" || kind == ">") {
+						for _, at := range pl.Atoms {
+							if at.Op == "builtin" && at.Sym == "len" && len(at.Args) == 1 && (isFieldLoad(at.Args[0], mp.fROm, nil) || mp.isDirtyMap(p, at.Args[0])) {
+								lenM := ToPoly(at)
+								if kind == "=" && pl.Equal(canonSign(lenM)) || kind == ">" && pl.Equal(polyConst(1).Add(lenM, -1)) {
+									empty = true
+								}
+							}
+						}
+					}
+				}
+				if !empty {
+					ok, why = false, "a path of Range ("+p.CondString()+") returns without iterating and without having found the snapshot empty"
+				}
+			}
+		}
 		// skip row: load reports !ok -> continue without callback
 		for _, cd := range p.Conds {
 			t, pol := stripNot(cd.T, cd.Pol)
@@ -1890,6 +1938,22 @@ func (mp *mapProto) effectCompleteness() {
 		o := c.R.Decide(ok, rule, fi.Name, "stores-on-every-path", c.pos(fi), "tryStore succeeded, or storeLocked, or a new entry for (key,value) inserted - on every path", why)
 		if !ok {
 			o.Breaks = "Store returns but a later Load still sees the old value"
+		}
+	}
+	// Load changes no map: it neither deletes from nor inserts into the dirty map (directly or in a helper walked through)
+	if fi := c.fn(rule, "sync2.(*Map).Load"); fi != nil {
+		ok, why := true, ""
+		for _, p := range mp.paths[fi] {
+			for i := range p.Events {
+				e := &p.Events[i]
+				if e.Kind == "mapupdate" || (e.Kind == "call" && e.Name == "builtin.delete") {
+					ok, why = false, "Load writes a map: "+e.String()
+				}
+			}
+		}
+		o := c.R.Decide(ok, rule, fi.Name, "reads-only", c.pos(fi), "no map insertion or deletion on any path of Load", why)
+		if !ok {
+			o.Breaks = "a Load makes a key that only the dirty map holds disappear"
 		}
 	}
 	// Load / LoadAndDelete / LoadOrStore: results come from the entry operation on the entry found after the re-check
@@ -2495,6 +2559,17 @@ func (mp *mapProto) dirtyCopyComplete() {
 					ok, why = false, "an expunged entry is put into the dirty map"
 				}
 			}
+			// the loop ends when the read map is exhausted, not before
+			for _, p := range li.Exit {
+				for _, cd := range p.Conds {
+					if cd.NEv >= p.LoopAt[li.Hdr] {
+						t, pol := stripNot(cd.T, cd.Pol)
+						if !(t.Op == "extract" && t.N == 0 && t.Args[0].Op == "next" && !pol) {
+							ok, why = false, "the copy loop can be left before every entry of the read map has been looked at ("+p.CondString()+")"
+						}
+					}
+				}
+			}
 		}
 		if ok && !sawLoop {
 			ok, why = false, "the dirty map is re-created without copying the read map's entries"
@@ -2592,6 +2667,21 @@ func (mp *mapProto) lookupJustified() {
 					uses = append(uses, e.Val)
 				}
 				for _, u := range uses {
+					if u != nil && u.Op == "lookup" && len(u.Args) == 2 && e.Kind == "mapupdate" {
+						// a single-valued m[k] stored as an entry: nil unless some comma-ok lookup of the same map and key
+						// has found it
+						good := false
+						for _, cd := range p.Conds {
+							t, pol := stripNot(cd.T, cd.Pol)
+							if pol && t.Op == "extract" && t.N == 1 && t.Args[0].Op == "lookup" && len(t.Args[0].Args) == 2 && t.Args[0].Args[0].Key() == u.Args[0].Key() && t.Args[0].Args[1].Key() == u.Args[1].Key() {
+								good = true
+							}
+						}
+						if !good {
+							ok, why = false, fmt.Sprintf("a path (%s) stores the result of a plain map lookup as an entry without having found the key present: a nil entry enters the map", p.CondString())
+						}
+						continue
+					}
 					if u == nil || !(u.Op == "extract" && u.N == 0 && u.Args[0].Op == "lookup") {
 						continue
 					}
